@@ -12,6 +12,8 @@
 (*   structure-mismatch - SqlRead(out) differs from the tree composed from *)
 (*                        the spec's operator table, the leaves' own SQL   *)
 (*                        and the call skeletons' own SQL                  *)
+(*   literal-content-differs - a string literal's own SQL is not one       *)
+(*                        string token with exactly the literal's content  *)
 (*   alias-mismatch     - deleting every  "alias".  prefix does not give   *)
 (*                        the unaliased token stream, or their number is   *)
 (*                        not the number of field references               *)
@@ -73,8 +75,19 @@ SkelsOf(x) == CASE x[1] \in {"Id", "Lit", "List"} -> {}
 SkelArgsOnce(c) == \A sk \in SkelsOf(c.tree) :
                      LET st == Lookup(File.skels[c.d], sk) IN
                      \A i \in 1..Len(sk[3]) : (sk[3][i] = Id0(ZName(i))) => CountCol(st, StrCps(ZName(i))) = 1
+\* every string literal that is a leaf of the filter is, in the dialect's own rendering, exactly one string-literal
+\* token whose content is the literal's content (quotes doubled and un-doubled, nothing else touched)
+RECURSIVE StrLeaves(_)
+StrLeaves(x) == CASE x[1] = "Lit" -> (IF x[2] = "String" THEN {x} ELSE {})
+                  [] x[1] \in {"Id", "List"} -> {}
+                  [] x[1] = "Call" -> UNION { IF KeepArg(x[2][3], i, x[3][i]) THEN {} ELSE StrLeaves(x[3][i]) : i \in 1..Len(x[3]) }
+                  [] OTHER -> LET ks == Sub(x) IN UNION { StrLeaves(ks[i]) : i \in 1..Len(ks) }
+LeafSqlOf(c, x) == LET pairs == File.leaves[c.d]  hits == {i \in 1..Len(pairs) : pairs[i][1] = x} IN
+                   IF hits = {} THEN <<>> ELSE pairs[CHOOSE i \in hits : TRUE][2]
+LeafLiteralsOk(c) == \A x \in StrLeaves(c.tree) : SqlTokens(LeafSqlOf(c, x)) = << <<"STR", x[3]>> >>
 VerdictOf(c) ==
   IF ~WellFormed(c.out) THEN "not-wellformed"
+  ELSE IF ~LeafLiteralsOk(c) THEN "literal-content-differs"
   ELSE IF ~SkelArgsOnce(c) THEN "template-drops-or-duplicates-argument"
   ELSE IF TreeOfSql(c.out) # E(c, c.tree) THEN "structure-mismatch"
   ELSE IF Len(c.aliased) > 0 /\ ~AliasOk(c) THEN "alias-mismatch"
